@@ -102,7 +102,7 @@ def run(ctx):
         ok = False
     ctx.ob("C42.D3-span-ended-by-key", cname(ct, None, "message close: the message's own status / reason / run key"), ok, "" if ok else "another run's status / key is used", where=where(ct, ct.node))
     h = rm.handler("close_run")
-    closes = [s for s in A.walk_stmts(h.node.body) if not isinstance(s, (ast.Try, ast.If, ast.With, ast.For, ast.While)) and A.find_calls(s, "current_run.close_run")]
+    closes = [s for s in A.walk_stmts(h.node.body) if not isinstance(s, (ast.Try, ast.If, ast.With, ast.For, ast.While)) and __import__("bsa.bidioms", fromlist=["x"]).bundler_method_calls(s, "close_run")]
     traces = [s for s in A.walk_stmts(h.node.body) if not isinstance(s, (ast.Try, ast.If, ast.With, ast.For, ast.While)) and A.find_calls(s, "self._close_run_trace")]
     ok = len(closes) == 1 and len(traces) == 1 and A.norm(traces[0]) == "self._close_run_trace(msg)"
     ctx.ob("C42.D3-span-ended-by-key", cname(h, None, "close_run handler ends the span of the closed run, with the message"), ok,
